@@ -101,6 +101,15 @@ Theorem C17_set_is_uniq_sort : forall (A K E : Type) (keyf : A -> outcome K E) c
   std_set keyf cmp eqv arr = obind (std_sort keyf cmp arr) (fun s => std_uniq keyf eqv s).
 Proof. exact set_is_uniq_sort. Qed.
 
+(* std.set under the contract's hypotheses (== agrees with "compares Equal"): the result is
+   strictly key-sorted, made of input items, and has one item for every key of the input *)
+Theorem C17_set_spec : forall (A K E : Type) (keyf : A -> outcome K E) cmp eqv (kf : A -> K) c e arr,
+  total_preorder c -> (forall a b, e a b = true <-> c a b = Eq) ->
+  keys_pure A K E keyf kf arr -> cmp_pure A K E cmp kf c arr -> eqv_pure A K E eqv kf e arr ->
+  exists r, std_set keyf cmp eqv arr = Ok r /\ is_set A K kf c r /\ incl r arr /\
+    (forall z, In z arr -> exists y, In y r /\ c (kf y) (kf z) = Eq).
+Proof. intros A K E keyf cmp eqv kf c e arr TP He. exact (set_spec A K E keyf cmp eqv kf c e TP He arr). Qed.
+
 (* ================= set functions on sets (strictly key-sorted arrays) ================= *)
 
 Theorem C17_union_spec : forall (A K E : Type) (keyf : A -> outcome K E) cmp (kf : A -> K) c a b,
@@ -176,13 +185,14 @@ Example C17_nonvacuous_uniq :
   keys_pure nat wkey werr (wkeyf (num_script ranks)) (num_kf ranks) (seq 0 7) /\
   eqv_pure nat wkey werr weqv (num_kf ranks) num_e (seq 0 7) /\
   (forall a b, num_e a b = num_e b a) /\
+  (forall a b, num_e a b = true <-> num_c a b = Eq) /\
   run_uniq (num_script ranks) = Ok [0; 2; 3; 5] /\
   run_set (num_script ranks) = Ok [0; 2; 5] /\
   run_uniq_sort (num_script ranks) = Ok [0; 2; 5].
 Proof.
   cbv zeta. split.
   { apply num_keys_pure. intros i Hi. apply in_seq in Hi. exact (proj2 Hi). }
-  split; [apply num_eqv_pure|]. split; [exact num_e_sym|].
+  split; [apply num_eqv_pure|]. split; [exact num_e_sym|]. split; [exact num_e_is_eq|].
   vm_compute. repeat split.
 Qed.
 
@@ -233,6 +243,7 @@ Print Assumptions C17_sort_keyf_error_propagates.
 Print Assumptions C17_uniq_spec.
 Print Assumptions C17_uniq_no_adjacent_duplicates.
 Print Assumptions C17_set_is_uniq_sort.
+Print Assumptions C17_set_spec.
 Print Assumptions C17_union_spec.
 Print Assumptions C17_inter_spec.
 Print Assumptions C17_diff_spec.
